@@ -26,7 +26,8 @@ EXPLANATION = (
     "only through the duplicate-recovering wrapper; R15.5 opening the store "
     "never resets it; R15.6 output files are opened for overwrite with "
     "names that are a function of workflow name and ordinal only. "
-    "Necessary conditions of repeatability; the database is never run.")
+    "Necessary conditions of repeatability; the database is never run."
+    " Added: R15.7 the duplicate recovery that makes re-ingestion a no-op is complete; R15.8 the time window derives from this run's ingestion only.")
 TRUSTED = ["builder-method semantics table of sa/sqlabs.py",
            "`with <data holder>:` runs the most derived __exit__ of the only "
            "class family that defines one"]
